@@ -316,12 +316,16 @@ def c19c(ctx):
 @rule('C19.d', floor=4)
 def c19d(ctx):
     """shared rules, re-evaluated for this property"""
-    for prop, rules in (('C05', {'C05.c', 'C05.j', 'C05.l'}), ('C06', {'C06.c', 'C06.d'}), ('C08', {'C08.d'})):
+    for prop, rules in (('C05', {'C05.c', 'C05.j', 'C05.l'}), ('C06', {'C06.a', 'C06.c', 'C06.d'}), ('C08', {'C08.d'})):
         sub = run_property(ctx.repo, prop, ctx.tier, only=rules)
         for e in sub.errors:
             raise Undecided('shared rule %s: %s' % e)
         for o in sub.obs:
             ob = o
+            # (C06.a: who may open a storage file for writing -- a bundle file comes into existence complete, through write_atomic;
+            # only the writers of the compact cache are of interest here)
+            if o.rule == 'C06.a' and not (o.where and 'compact' in str(o.where)):
+                continue
             if o.status == 'ok':
                 ctx.ok('%s:%s' % (o.rule, o.construct), o.msg, o.where)
             else:
@@ -376,3 +380,42 @@ def c19e(ctx):
         ok = at.startswith(tmp) and 'bundlx' in at and final in bt and tmp not in bt and final not in at
     ctx.check(ok, 'defrag:index-rename-direction', 'the temporary index file is renamed onto the original index name', df,
               fail='defrag renames the index file in the wrong direction')
+
+
+@rule('C19.f', floor=1)
+def c19f(ctx):
+    """after a remove the index entry is empty: BundleIndexV1.remove_tile_offset writes the all-zero entry, or the entry a fresh index
+    holds for that tile -- the offset of the tile's zero-size record in the initial data area, header + 4 * (x * grid height + y), the
+    stride of the 4-byte size records (BundleIndexV1._init_index).  Anything else points into the middle of another record or past the
+    end of the file"""
+    from ..util import poly_coeffs
+    repo, mod = ctx.repo, ctx.repo.mod(COMPACT)
+    fn = ctx.fn(COMPACT + ':BundleIndexV1.remove_tile_offset')
+    writes = [x for x in fn.walk() if isinstance(x, ast.Call) and isinstance(x.func, ast.Attribute) and x.func.attr == 'write' and x.args]
+    ok = bool(writes)
+    detail = ''
+    H = try_const(ast.Name(id='BUNDLEX_V1_GRID_HEIGHT'), repo, mod)
+    hdr = try_const(ast.Name(id='BUNDLE_V1_HEADER_SIZE'), repo, mod)
+    for w in writes:
+        v = fn.canon.expr(w.args[0])
+        c = try_const(v, repo, mod)
+        if isinstance(c, bytes):
+            good = len(c) == 5 and not any(c)
+            detail = detail or ('' if good else 'writes the constant %r' % c)
+        else:
+            good = False
+            e = v
+            if isinstance(e, ast.Subscript) and isinstance(e.slice, ast.Slice) and e.slice.lower is None and try_const(e.slice.upper, repo, mod) == 5:
+                e = e.value
+                if isinstance(e, ast.Call) and isinstance(e.func, ast.Attribute) and e.func.attr == 'pack' and e.args:
+                    try:
+                        c0, co = poly_coeffs(e.args[-1], [fn.params[1], fn.params[2]], repo, mod)
+                        good = c0 == hdr and co[fn.params[1]] == 4 * H and co[fn.params[2]] == 4
+                        detail = detail or ('' if good else 'writes offset %s + %s*x + %s*y (fresh index: %s + %s*x + 4*y)' % (c0, co[fn.params[1]], co[fn.params[2]], hdr, 4 * H))
+                    except Undecided:
+                        pass
+            if not good and not detail:
+                detail = 'writes %s' % unparse(v)[:60]
+        ok = ok and good
+    ctx.check(ok, 'BundleIndexV1.remove_tile_offset:entry-empty', 'a removed tile leaves an empty index entry (zeros, or the tile\'s zero-size record)', fn,
+              fail='remove_tile_offset %s: the entry of a removed tile points at something that is not an empty record' % detail)
